@@ -103,14 +103,31 @@ func checkHistory(h history, sec *vk.Section) *failure {
 	return nil
 }
 
-var names = []string{"a", "b", "c", "d"}
+// namePools: the four file names a history draws its sets from. Besides unrelated names, families in which one name
+// is another one plus a suffix or prefix that tools use for their temporary, backup, lock or "new version" files: a
+// file set may contain both (a certificate and the previous export of it, an editor's backup next to the file), and
+// each is a file of the set like any other.
+var namePools = [][]string{
+	{"a", "b", "c", "d"},
+	{"a", "b", "c", "d"},
+	{"cert.pem", "cert.pem.tmp", "key.pem", "key.pem.tmp"},
+	{"x", "x~", "x.bak", ".x.swp"},
+	{"data", "data.new", "data.old", "data.lock"},
+	{"f", ".f", "f.", "tmp-f"},
+	{"tls.crt", "tls.crt.new", "tls.key", ".tls.key.tmp"},
+	{"ca.crt", "ca.crt.partial", "ca.crt.1", "ca.crt-"},
+}
 
-func genSet(rt *rapid.T, label string) wset {
+func genPool(rt *rapid.T) []string {
+	return namePools[rapid.IntRange(0, len(namePools)-1).Draw(rt, "namePool")]
+}
+
+func genSet(rt *rapid.T, label string, names []string) wset {
 	mask := rapid.IntRange(0, 15).Draw(rt, label+".names")
 	var ws wset
 	for i, n := range names {
 		if mask&(1<<i) != 0 {
-			ws = append(ws, fent{Name: n, Len: rapid.SampledFrom([]int{8, 8, 100, 5000, 0}).Draw(rt, label+".len."+n)})
+			ws = append(ws, fent{Name: n, Len: rapid.SampledFrom([]int{8, 8, 100, 5000, 0}).Draw(rt, label+".len."+fmt.Sprint(i))})
 		}
 	}
 	return ws
@@ -119,18 +136,19 @@ func genSet(rt *rapid.T, label string) wset {
 func genHistory(rt *rapid.T) history {
 	h := history{Crash2: -1}
 	h.Nested = rapid.Bool().Draw(rt, "nested")
+	pool := genPool(rt)
 	nw := rapid.IntRange(1, 4).Draw(rt, "writes")
 	for i := 0; i < nw; i++ {
-		h.Writes = append(h.Writes, genSet(rt, fmt.Sprintf("h%d", i)))
+		h.Writes = append(h.Writes, genSet(rt, fmt.Sprintf("h%d", i), pool))
 	}
 	nr := rapid.IntRange(1, 2).Draw(rt, "recov")
 	for i := 0; i < nr; i++ {
-		h.Recov = append(h.Recov, genSet(rt, fmt.Sprintf("r%d", i)))
+		h.Recov = append(h.Recov, genSet(rt, fmt.Sprintf("r%d", i), pool))
 	}
 	if rapid.IntRange(0, 2).Draw(rt, "secondCrash") == 2 {
 		// a fresh Dir passes 8 + 2*files hook points in its first Write
 		h.Crash2 = rapid.IntRange(0, 8+2*len(h.Recov[0])-1).Draw(rt, "crash2")
-		h.Recov2 = genSet(rt, "q0")
+		h.Recov2 = genSet(rt, "q0", pool)
 	}
 	return h
 }
@@ -270,14 +288,15 @@ func TestPinnedStaleNewLink(t *testing.T) {
 func genFaultHistory(rt *rapid.T) (history, faultVariant) {
 	h := history{Crash2: -1}
 	h.Nested = rapid.Bool().Draw(rt, "nested")
+	pool := genPool(rt)
 	h.Disk = rapid.IntRange(0, 7).Draw(rt, "disk") == 0 // the disk file system is several times slower
 	nw := rapid.IntRange(1, 4).Draw(rt, "writes")
 	for i := 0; i < nw; i++ {
-		h.Writes = append(h.Writes, genSet(rt, fmt.Sprintf("h%d", i)))
+		h.Writes = append(h.Writes, genSet(rt, fmt.Sprintf("h%d", i), pool))
 	}
 	nr := rapid.IntRange(1, 2).Draw(rt, "after")
 	for i := 0; i < nr; i++ {
-		h.Recov = append(h.Recov, genSet(rt, fmt.Sprintf("r%d", i)))
+		h.Recov = append(h.Recov, genSet(rt, fmt.Sprintf("r%d", i), pool))
 	}
 	va := faultVariant{Repeat: rapid.Bool().Draw(rt, "faultKeptForNextWrite"), SameFirst: rapid.Bool().Draw(rt, "sameDirFirst")}
 	return h, va
